@@ -69,10 +69,17 @@ inductive ReqBody where
 
 inductive HStep where
   | selfPend | extPend | readOne | readAll | drop | move
+  /-- poll the payload once under the connection task's waker, never block -/
+  | tryRead
+  /-- join the consumer task that owns the moved payload -/
+  | waitConsumer
   deriving Repr, DecidableEq
 
 inductive CStep where
   | read | drop
+  /-- wake-driven read-to-end: the consumer task polls until `Pending` and then runs again only
+  when its own waker has fired -/
+  | readAllWake
   deriving Repr, DecidableEq
 
 structure Req where
@@ -199,6 +206,10 @@ structure World where
   chans : List Chan := []
   /-- the task that owns a moved payload: request id and remaining script -/
   consumer : Option (Nat × List CStep) := none
+  /-- the consumer task's waker has fired (it is a task of its own) -/
+  consumerWoken : Bool := false
+  /-- the connection task's waker is stored with the consumer task's join handle -/
+  doneWaiting : Bool := false
   /-- virtual clock, ms -/
   now : Nat := 0
   /-- handler calls so far -/
@@ -315,7 +326,7 @@ def chanWake (w : World) (rid : Nat) : World :=
   let c := w.chan rid
   match c.task with
   | some .conn => ({ w with woken := true }).setChan rid { c with task := none }
-  | some .consumer => w.setChan rid { c with task := none }
+  | some .consumer => ({ w with consumerWoken := true }).setChan rid { c with task := none }
   | none => w
 
 /-- `Inner::wake_io`: wake the feeding (connection) task -/
@@ -604,9 +615,22 @@ def pollHandler (e : Env) : Nat → HFut → World → HRes × HFut × World
       pollHandler e fuel { h with steps := rest, hasPl := false } (dropHFut w h)
     | .move :: rest =>
       if h.hasPl then
+        -- a freshly spawned wake-driven task is runnable
         pollHandler e fuel { h with steps := rest, hasPl := false }
-          { w with consumer := some (h.rid, (e.req h.rid).csteps) }
+          { w with consumer := some (h.rid, (e.req h.rid).csteps),
+                   consumerWoken := w.consumerWoken || (e.req h.rid).csteps.head? == some .readAllWake }
       else pollHandler e fuel { h with steps := rest } w
+    | .tryRead :: rest =>
+      if !h.hasPl then pollHandler e fuel { h with steps := rest } w
+      else
+        match chanPollNext w h.rid .conn with
+        | (.pending, w') => pollHandler e fuel { h with steps := rest } w'
+        | (.item _, w') => pollHandler e fuel { h with steps := rest } w'
+        | (_, w') =>
+          pollHandler e fuel { h with steps := rest, hasPl := false } (dropReader w' h.rid)
+    | .waitConsumer :: rest =>
+      if w.consumer.isNone then pollHandler e fuel { h with steps := rest } w
+      else (.pending, h, { w with doneWaiting := true })
 
 def hFuel (h : HFut) (w : World) : Nat := h.steps.length + (w.chan h.rid).items.length + 2
 
